@@ -4,7 +4,7 @@ SPEC = {
     "targets": ["C32/Property.vo"],
     "theorems": ["C32_vrps_terminates", "C32_vrps_ok_only_after_ok_run", "C32_one_shot",
                  "C32_server_at_most_two_retries", "C32_server_never_exits_ok", "C32_server_all_failing_stops",
-                 "C32_old_vrps_refuted", "C32_nonvacuous"],
+                 "C32_old_vrps_refuted", "C32_model_satisfies_spec", "C32_nonvacuous"],
     "streams": [{
         "name": "retry", "bin": "c32", "check_module": "C32.Spec", "model_expr": "model_exit CASE",
         "why": {"2": "a command ran validation more than twice / kept retrying, reported success without a successful run, "
